@@ -315,7 +315,7 @@ def case(ctx, i, tier):
     if i % 5 == 4:
         return episode_case(ctx)
     rng = ctx.rng
-    pool = [ETF("A"), ETF("B"), ES(2019, 6), ZN(2019, 9), ETF("C"), gen.SpotMult("L10", 10.0), gen.UserFuture("F1", 5, 0.3)]
+    pool = [ETF("A"), ETF("B"), ES(2019, 6), ZN(2019, 9), ETF("C"), gen.SpotMult("L10", 10.0), gen.UserFuture("F1", 5, 0.3), gen.UserSpot("U3", 3.0), gen.AssetFuture("AF", 20, 0.2)]
     rng.shuffle(pool)
     cs = pool[: rng.randint(2, 4)]
     t = datetime(2019, 1, 1)
